@@ -189,7 +189,16 @@ def build_command(cmd: dict):
 
     c = cmd["c"]
     if c == "load":
-        return C.CmdLoad(cmd["address"], bytes(cmd["data"]), cmd["mem_id"], zero_filling=cmd["zero"])
+        data = bytes(cmd["data"])
+        if data and (cmd["address"] + len(data)) % 3 == 0:
+            # the data are handed over in a buffer the caller uses again for the next chunk (the constructor accepts a bytearray
+            # and takes a copy): what is loaded is what the buffer held when the command was made
+            buf = bytearray(data)
+            obj = C.CmdLoad(cmd["address"], buf, cmd["mem_id"], zero_filling=cmd["zero"])
+            for i in range(len(buf)):
+                buf[i] ^= 0xA5
+            return obj
+        return C.CmdLoad(cmd["address"], data, cmd["mem_id"], zero_filling=cmd["zero"])
     if c == "fill":
         return C.CmdFill(cmd["address"], expected(cmd)["_pattern"], cmd["length"])
     if c == "jump":
